@@ -62,8 +62,9 @@ def main():
         if confirmed:
             dst = os.path.join(VERIF, "seeded", f"{pid}-{name}")
             os.makedirs(dst, exist_ok=True)
-            shutil.copy(os.path.join(src, "patch.diff"), dst)
-            shutil.copy(os.path.join(src, "demo.py"), dst)
+            if os.path.realpath(src) != os.path.realpath(dst):
+                shutil.copy(os.path.join(src, "patch.diff"), dst)
+                shutil.copy(os.path.join(src, "demo.py"), dst)
             meta = {}
             if os.path.exists(os.path.join(src, "meta.json")):
                 try:
